@@ -20,7 +20,7 @@ Extraction "model.ml"
   Archive.build Archive.open Archive.read_file Archive.list_files Archive.pending Archive.sectors Archive.sector_size
   Archive.adler32 Archive.crc32 Archive.parse_listfile Archive.ht_find Archive.ht_insert
   Rebuild.rebuild_specs Rebuild.rebuild_cfg
-  MpqRef.ref_open MpqRef.ref_read MpqRef.ref_write MpqRef.ref_find
+  MpqRef.ref_open MpqRef.ref_read MpqRef.ref_write MpqRef.ref_find MpqRef.ref_table_sane
   Modify.spec_run Modify.sget Modify.fold_name Modify.mt_add Modify.mt_find Modify.mt_remove
   M2.refs_ok M2.deref M2.relocate
   Chunked.table_ok Chunked.chunk_at Chunked.chunk_offsets Chunked.name_offsets Chunked.name_at
